@@ -249,7 +249,27 @@ pub(crate) fn m_inline_important() {
     assert!(seen == 2, "texts not found");
 }
 
+/// Unknown at-rules are skipped as a whole, whatever brackets their prelude holds; the rules after them apply (public API).
+pub(crate) fn m_at_rule_skip() {
+    let _which: u8 = kani::any();
+    let html = "<div class=\"h\">hidden</div><p>para</p><span>vis</span>";
+    let plain = "div.h { display: none; }";
+    let want = crate::config::plain().add_css(plain).expect("css").string_from_read(html.as_bytes(), 40).expect("renders");
+    assert!(!want.contains("hidden") && want.contains("para"), "reference rendering wrong: {:?}", want);
+    for sheet in [
+        "@media (max-width: 600px) { p { display: none; } } div.h { display: none; }",
+        "@media screen and (min-width:100px) { p { display: none; } } div.h { display: none; }",
+        "@supports (display: grid) { p { display: none; } } div.h { display: none; }",
+        "@import url(foo.css); div.h { display: none; }",
+        "@x [a] (b) ; div.h { display: none; }",
+        "@font-face { font-family: x; src: url(y) } div.h { display: none; }",
+    ] {
+        let out = crate::config::plain().add_css(sheet).expect("css").string_from_read(html.as_bytes(), 40).expect("renders");
+        assert!(out == want, "sheet {:?} is not equivalent to the plain rule: {:?} vs {:?}", sheet, out, want);
+    }
+}
+
 crate::verif_common::registry! {
-    m_inline_important, m_css_final_semicolon, m_css_case, m_display_none, m_descendant_self, m_css_progress, m_nth_parse, m_nth_child,
+    m_at_rule_skip, m_inline_important, m_css_final_semicolon, m_css_case, m_display_none, m_descendant_self, m_css_progress, m_nth_parse, m_nth_child,
     s3_selector_specificity,
 }
